@@ -56,6 +56,9 @@ class Unit:
         self.notes = notes
         self.hints = hints or {}
         self.assumes = list(assumes)
+        self.reveal = ()
+        self.ghost_params = ()
+        self.stmt_hints = []  # [(source-prefix, {snapshot name: expr}, [lemma instance exprs])]
         self.src_info = None
 
 
@@ -370,7 +373,30 @@ class Registry:
     def _none(self, *a, **k):
         return None
 
-    obj_contains = obj_getitem = obj_setitem = obj_delitem = obj_len = obj_iter = _none
+    def _obj_hook(kind):
+        def f(self, sx, obj, *rest):
+            cls = obj.ty.cls if isinstance(obj.ty, V.ObjT) else None
+            for c in self.mro(cls):
+                h = self.hooks.get((kind, c))
+                if h is not None:
+                    return h(sx, obj, *rest)
+            return None
+
+        return f
+
+    obj_contains = _obj_hook("contains")
+    obj_getitem = _obj_hook("getitem")
+    obj_setitem = _obj_hook("setitem")
+    obj_delitem = _obj_hook("delitem")
+    obj_len = _obj_hook("len")
+    obj_iter = _obj_hook("iter")
+
+    def hook(self, kind, cls):
+        def deco(f):
+            self.hooks[(kind, cls)] = f
+            return f
+
+        return deco
     json_setitem = json_method = set_len = set_iter = set_of_json = sorted_model = sort_model = _none
     value_method = str_of = bytes_of = getattr_dynamic = binop = comprehension_over = star_call = _none
     join_model = split_model = format_model = json_iter = _none
@@ -398,6 +424,8 @@ class Registry:
                 vals[p] = kwargs[p]
             elif p in getattr(con, "defaults", {}):
                 vals[p] = con.defaults[p]
+            elif p in getattr(con, "ghost_params", ()):
+                vals[p] = sx.fresh(con.params[p], "ghost_" + p, st)
             else:
                 raise Unsupported("missing argument %s for contract %s" % (p, con.qual), node)
         # coerce argument shapes
@@ -414,6 +442,7 @@ class Registry:
             sx.oblige(st, "%s/call:%s/pre:%s" % (caller, con.qual, name), c, "call-pre", node)
         outs = []
         entry = st.fork()
+        entry.frames.append(dict(vals))
         # exceptional edges
         for ecls, cond_src in con.raises.items():
             c = z3.BoolVal(True) if cond_src is True else sx.eval_spec(cond_src, st, vals)
@@ -455,7 +484,7 @@ class Registry:
                         st.ghost[g] = sx.fresh(st.ghost[g].ty, "g_" + g, st)
                 continue
             for a in parts[1:]:
-                v = st.heap[v.cell][a]
+                v = st.getcell(v.cell)[a]
             if isinstance(v, Ref):
                 sx.havoc_cell(v.cell, st)
 
@@ -471,7 +500,9 @@ LOG_METHODS = {"debug", "info", "warning", "error", "exception", "critical", "lo
 class SpecFunc:
     """pure spec function defined by python source, translated to a z3 (recursive) function"""
 
-    def __init__(self, reg, name, params, ret, src, recursive=False):
+    def __init__(self, reg, name, params, ret, src, recursive=False, opaque=False):
+        self.opaque = opaque
+        self.uf = None
         self.reg = reg
         self.name = name
         self.params = params  # [(name, Ty)]
@@ -513,9 +544,15 @@ class SpecFunc:
 
     def as_func(self, sx):
         def call(sx2, args, kwargs, st, node):
-            self.define(sx2)
             args = [sx2.deref(sx2.lift(a) if isinstance(a, Conc) else a, st) for a in args]
             terms = [sx2.coerce(a, t, st).term for a, (_, t) in zip(args, self.params)]
+            reveal = getattr(sx2.unit, "reveal", ()) if sx2.unit is not None else ("*",)
+            if self.opaque and self.name not in reveal and "*" not in reveal:
+                # hidden definition: callers reason about it as an uninterpreted function (opaque/reveal)
+                if self.uf is None:
+                    self.uf = z3.Function("spec_" + self.name, *([t.sort() for _, t in self.params] + [self.ret.sort()]))
+                return [R(st, Val(self.ret, self.uf(*terms)))]
+            self.define(sx2)
             if self.recursive:
                 return [R(st, Val(self.ret, self.z3f(*terms)))]
             formals, body = self.body
@@ -533,7 +570,8 @@ class Lemma:
     quantified assumption; its two proof obligations belong to the evidence of the properties in `props`.
     """
 
-    def __init__(self, name, vars, hyp, concl, induct, base, props=()):
+    def __init__(self, name, vars, hyp, concl, induct=None, base=None, props=()):
+        # induct=None: a direct lemma (hyp -> concl proved with all definitions revealed, no induction)
         self.name = name
         self.vars = vars
         self.hyp = hyp
@@ -568,6 +606,9 @@ class Lemma:
         for n, t in self.vars:
             for w in t.wellformed(consts[n].term):
                 st.assume(w)
+        if self.induct is None:
+            h, c = self.instantiate(sx, st, consts)
+            return [Obligation("lemma:%s/direct" % self.name, "lemma", list(st.pc) + [h], c, None, props=self.props)]
         j = consts[self.induct]
         st.frames.append(dict(consts))
         basev = sx.ev1(ast.parse(self.base, mode="eval").body, st)
